@@ -170,3 +170,242 @@ def contracts():
 
 
 CONTRACTS = contracts()
+
+
+# ---------------------------------------------------------------------------------------------------------------
+# The wake sweeps.  They call mj_wakeIsland / mj_sleepCycle without knowing the cycle structure, so they use a second,
+# weaker VIEW of the two primitives: no ghost description of the cycle, the error exits allowed (mjERROR does not return),
+# and only what every normal return guarantees - tree i ends awake, no awake tree falls asleep, nothing but the wake
+# value is written.  Both views are verified against the same real bodies (props/C18.py); the strong one above carries
+# "the whole cycle and nothing else", the weak one carries "the events the documentation lists do wake the tree".
+WAKE_VIEW = {
+    'params': {'tree_asleep': {'len': 'ntree'}, 'reason': {'null': True}},
+    'requires': {'size': '0 < ntree and ntree < 2**30', 'wake_value_means_awake': 'wakeval < 0'},
+    'assigns': ['tree_asleep[*]'],
+    'ensures': {
+        'tree_i_ends_awake': 'implies(0 <= i and i < ntree, a[i] < 0)',
+        'no_awake_tree_falls_asleep': 'forall(lambda x: implies(0 <= x and x < ntree and old(a[x]) < 0, a[x] < 0))',
+        'only_the_wake_value_is_written': 'forall(lambda x: implies(0 <= x and x < ntree and x != i, a[x] == old(a[x]) or a[x] == wakeval))',
+        'count_not_negative': 'result >= 0 and result <= ntree',
+    },
+    'loops': {0: {'invariant': {
+        'position': '0 <= nwoke and nwoke < ntree and 0 <= current and current < ntree and 0 <= i and i < ntree and old(a[i]) >= 0',
+        'start_woken_after_first_step': 'implies(nwoke > 0, a[i] == wakeval)',
+        'first_step_starts_at_i': 'implies(nwoke == 0, current == i)',
+        'writes': 'forall(lambda x: implies(0 <= x and x < ntree, a[x] == old(a[x]) or a[x] == wakeval))',
+    }}},
+}
+
+CYCLE_VIEW = {
+    'params': {'tree_asleep': {'len': 'ntree'}},
+    'requires': {'size': '0 <= ntree and ntree < 2**30'},
+    'assigns': [],
+    'ensures': {'minus_one_or_a_tree': 'result == -1 or (0 <= result and result < ntree)'},
+    'loops': {0: {'invariant': {'walk': '0 <= i and i < ntree and 0 <= current and current < ntree and 0 <= smallest and smallest < ntree and 0 <= count and count <= ntree + 1'}}},
+    'no_error': True,
+}
+
+# tendonLimit(m, ten_length, i) (engine_core_util.c): number of violated length limits of tendon i, a pure function of its arguments;
+# callers name its value by the ghost array lim
+TENDON_LIMIT = {
+    'ghost_params': {'lim': 'array'},
+    'assumed': True, 'requires': {}, 'assigns': [], 'pure': True,
+    'ensures': {'value_named_by_the_ghost': 'result == lim[i]'},
+}
+TENDON_LIMIT_BODY = {
+    'params': {'m': {'n': 1, 'ptrfields': {'tendon_limited': {'len': 'm.ntendon'}, 'tendon_margin': {'len': 'm.ntendon'}, 'tendon_range': {'len': '2 * m.ntendon'}}},
+               'ten_length': {'len': 'm.ntendon'}},
+    'requires': {'range': '0 <= i and i < m.ntendon and m.ntendon < 2**28'},
+    'assigns': [],
+    'ensures': {
+        'unlimited_tendons_never_count': 'implies(m.tendon_limited[i] == 0, result == 0)',
+        'zero_one_or_two': '0 <= result and result <= 2',
+        'counts_the_violated_sides': 'implies(m.tendon_limited[i] != 0, (result >= 1) == '
+                                     '(fpLT(z3.fpMul(z3.RNE(), fp(-1.0), z3.fpSub(z3.RNE(), m.tendon_range[2 * i], ten_length[i])), m.tendon_margin[i]) or '
+                                     'fpLT(z3.fpMul(z3.RNE(), fp(1.0), z3.fpSub(z3.RNE(), m.tendon_range[2 * i + 1], ten_length[i])), m.tendon_margin[i])))',
+    },
+    'loops': {0: {'unroll': 2}},
+    'no_error': True,
+}
+
+TA, TW = 'd.tree_asleep', 'd.tree_awake'
+SLEEP_ON = '((m.opt.enableflags % 2**32) / mjENBL_SLEEP) % 2 == 1'      # the mjENBL_SLEEP bit of the enable flags (math ints: bit test by division)
+CONSISTENT = 'forall(lambda t: implies(0 <= t and t < m.ntree, (%s[t] != 0) == (%s[t] < 0)))' % (TW, TA)   # what mj_updateSleepInit establishes (proved above)
+MONO = 'forall(lambda x: implies(0 <= x and x < m.ntree and old(%s[x]) < 0, %s[x] < 0))' % (TA, TA)
+
+# a limited two-tree tendon between an awake and a sleeping tree
+TENDON_EVENT = ('lambda k: m.tendon_treenum[k] == 2 and lim[k] != 0 and (%s[m.tendon_treeid[2 * k]] != 0) != (%s[m.tendon_treeid[2 * k + 1]] != 0)' % (TW, TW))
+WAKE_TENDON = {
+    'ghost_params': {'lim': 'array'},
+    'params': {'m': {'n': 1, 'ptrfields': {'tendon_treenum': {'len': 'm.ntendon'}, 'tendon_treeid': {'len': '2 * m.ntendon'}}},
+               'd': {'n': 1, 'ptrfields': {'tree_asleep': {'len': 'm.ntree'}, 'tree_awake': {'len': 'm.ntree'}, 'ten_length': {'len': 'm.ntendon'}}}},
+    'defs': {'EVENT': TENDON_EVENT},
+    'requires': {'sizes': '0 <= m.ntree and m.ntree < 2**30 and 0 <= m.ntendon and m.ntendon < 2**28',
+                 'tendon_trees': 'forall(lambda k: implies(0 <= k and k < m.ntendon and m.tendon_treenum[k] == 2, 0 <= m.tendon_treeid[2 * k] and m.tendon_treeid[2 * k] < m.ntree and '
+                                 '0 <= m.tendon_treeid[2 * k + 1] and m.tendon_treeid[2 * k + 1] < m.ntree))',
+                 'derived_flags_current': CONSISTENT,
+                 'wake_counter_fits_an_int': '(m.ntendon + 1) * m.ntree < 2**31'},      # domain restriction: the sum of the per-call counts is bounded by calls * ntree here
+    'assigns': ['d.tree_asleep[*]'],
+    'ensures': {
+        'a_limited_tendon_to_an_awake_tree_wakes_the_sleeping_one': 'implies(%s, forall(lambda k: implies(0 <= k and k < m.ntendon and EVENT(k), '
+                                                                    '%s[m.tendon_treeid[2 * k]] < 0 and %s[m.tendon_treeid[2 * k + 1]] < 0)))' % (SLEEP_ON, TA, TA),
+        'no_awake_tree_falls_asleep': MONO,
+        'nothing_happens_with_sleep_disabled': 'implies(not (%s), result == 0 and forall(lambda x: implies(0 <= x and x < m.ntree, %s[x] == old(%s[x]))))' % (SLEEP_ON, TA, TA),
+        'count_not_negative': 'result >= 0',
+    },
+    'loops': {0: {'invariant': {
+        'range': '0 <= i and i <= ntendon and ntendon == m.ntendon and nwoke >= 0 and nwoke <= i * m.ntree and %s' % SLEEP_ON,
+        'mono': MONO,
+        'done': 'forall(lambda k: implies(0 <= k and k < i and EVENT(k), %s[m.tendon_treeid[2 * k]] < 0 and %s[m.tendon_treeid[2 * k + 1]] < 0))' % (TA, TA),
+    }}},
+    'ghost_args': {'tendonLimit': {'lim': 'lim'}},
+}
+
+
+# mj_wakeEquality: an active connect / weld / joint equality between a sleeping tree and an awake one (a tree that is awake, or a
+# dof-less body marked awake: mocap) wakes the sleeping tree.  B1/B2 = the two bodies, T1/T2 their trees, S1/S2 their sleep states, all as
+# functions of the model and of the derived flags at entry (the sweep reads tree_awake, which it does not update).
+EXACT_FLAGS = 'forall(lambda t: implies(0 <= t and t < m.ntree, %s[t] == (1 if %s[t] < 0 else 0)))' % (TW, TA)   # ensures of mj_updateSleepInit
+EQ_DEFS = {
+    'CW': 'lambda k: m.eq_type[k] == mjEQ_CONNECT or m.eq_type[k] == mjEQ_WELD',
+    'B1': 'lambda k: ((m.eq_obj1id[k] if m.eq_objtype[k] == mjOBJ_BODY else m.site_bodyid[m.eq_obj1id[k]]) if CW(k) else (m.jnt_bodyid[m.eq_obj1id[k]] if m.eq_obj1id[k] >= 0 else -1))',
+    'B2': 'lambda k: ((m.eq_obj2id[k] if m.eq_objtype[k] == mjOBJ_BODY else m.site_bodyid[m.eq_obj2id[k]]) if CW(k) else (m.jnt_bodyid[m.eq_obj2id[k]] if m.eq_obj2id[k] >= 0 else -1))',
+    'TR': 'lambda b: (m.body_treeid[b] if b >= 0 else -1)',
+    'ST': 'lambda b: (d.tree_awake[TR(b)] if TR(b) >= 0 else (d.body_awake[b] if b >= 0 else mjS_STATIC))',
+    'EVENT': ('lambda k: d.eq_active[k] != 0 and (CW(k) or m.eq_type[k] == mjEQ_JOINT) and TR(B1(k)) != TR(B2(k)) and '
+              'ST(B1(k)) != mjS_STATIC and ST(B2(k)) != mjS_STATIC and (ST(B1(k)) == mjS_ASLEEP) != (ST(B2(k)) == mjS_ASLEEP)'),
+    'WOKEN': 'lambda k: (%s[TR(B1(k))] < 0 if ST(B1(k)) == mjS_ASLEEP else %s[TR(B2(k))] < 0)' % (TA, TA),
+    'BODY_OK': 'lambda b: 0 <= b and b < m.nbody',
+    'FLEXEQ': 'lambda k: m.eq_type[k] == mjEQ_FLEX or m.eq_type[k] == mjEQ_FLEXVERT or m.eq_type[k] == mjEQ_FLEXSTRAIN',
+}
+WAKE_EQUALITY = {
+    'params': {'m': {'n': 1, 'ptrfields': {'eq_type': {'len': 'm.neq'}, 'eq_obj1id': {'len': 'm.neq'}, 'eq_obj2id': {'len': 'm.neq'}, 'eq_objtype': {'len': 'm.neq'},
+                                           'site_bodyid': {'len': 'm.nsite'}, 'jnt_bodyid': {'len': 'm.njnt'}, 'body_treeid': {'len': 'm.nbody'},
+                                           'flex_interp': {'len': 'm.nflex'}, 'flex_nodenum': {'len': 'm.nflex'}, 'flex_nodeadr': {'len': 'm.nflex'},
+                                           'flex_vertnum': {'len': 'm.nflex'}, 'flex_vertadr': {'len': 'm.nflex'},
+                                           'flex_nodebodyid': {'len': 'm.nflexnode'}, 'flex_vertbodyid': {'len': 'm.nflexvert'}}},
+               'd': {'n': 1, 'ptrfields': {'tree_asleep': {'len': 'm.ntree'}, 'tree_awake': {'len': 'm.ntree'}, 'body_awake': {'len': 'm.nbody'}, 'eq_active': {'len': 'm.neq'}}}},
+    'defs': EQ_DEFS,
+    'requires': {
+        'sizes': '0 <= m.ntree and m.ntree < 2**30 and 0 <= m.neq and m.neq < 2**28 and 1 <= m.nbody and m.nbody < 2**30 and 0 <= m.nsite and m.nsite < 2**30 and '
+                 '0 <= m.njnt and m.njnt < 2**30 and 0 <= m.nflex and m.nflex < 2**30 and 0 <= m.nflexnode and m.nflexnode < 2**30 and 0 <= m.nflexvert and m.nflexvert < 2**30',
+        'wake_counter_fits_an_int': '2 * (m.neq + 1) * m.ntree < 2**31',
+        'derived_flags_current': EXACT_FLAGS,
+        'trees_of_bodies': 'forall(lambda b: implies(0 <= b and b < m.nbody, -1 <= m.body_treeid[b] and m.body_treeid[b] < m.ntree))',
+        'dofless_bodies_are_static_or_awake': 'forall(lambda b: implies(0 <= b and b < m.nbody and m.body_treeid[b] < 0, d.body_awake[b] == mjS_STATIC or d.body_awake[b] == mjS_AWAKE))',   # ensures of mj_updateSleepInit
+        'bodies_of_sites_and_joints': 'forall(lambda s: implies(0 <= s and s < m.nsite, BODY_OK(m.site_bodyid[s]))) and forall(lambda j: implies(0 <= j and j < m.njnt, BODY_OK(m.jnt_bodyid[j])))',
+        'equality_objects': 'forall(lambda k: implies(0 <= k and k < m.neq, '
+                            '(implies(CW(k) and m.eq_objtype[k] == mjOBJ_BODY, BODY_OK(m.eq_obj1id[k]) and BODY_OK(m.eq_obj2id[k])) and '
+                            'implies(CW(k) and m.eq_objtype[k] != mjOBJ_BODY, 0 <= m.eq_obj1id[k] and m.eq_obj1id[k] < m.nsite and 0 <= m.eq_obj2id[k] and m.eq_obj2id[k] < m.nsite) and '
+                            'implies(m.eq_type[k] == mjEQ_JOINT, -1 <= m.eq_obj1id[k] and m.eq_obj1id[k] < m.njnt and -1 <= m.eq_obj2id[k] and m.eq_obj2id[k] < m.njnt) and '
+                            'implies(FLEXEQ(k), 0 <= m.eq_obj1id[k] and m.eq_obj1id[k] < m.nflex))))',
+        'flex_ranges': 'forall(lambda f: implies(0 <= f and f < m.nflex, 0 <= m.flex_nodeadr[f] and 0 <= m.flex_nodenum[f] and m.flex_nodeadr[f] + m.flex_nodenum[f] <= m.nflexnode and '
+                       '0 <= m.flex_vertadr[f] and 0 <= m.flex_vertnum[f] and m.flex_vertadr[f] + m.flex_vertnum[f] <= m.nflexvert)) and '
+                       'forall(lambda q: implies(0 <= q and q < m.nflexnode, BODY_OK(m.flex_nodebodyid[q]))) and forall(lambda q: implies(0 <= q and q < m.nflexvert, BODY_OK(m.flex_vertbodyid[q])))',
+    },
+    'assigns': ['d.tree_asleep[*]'],
+    'ensures': {
+        'an_active_equality_to_an_awake_side_wakes_the_sleeping_tree': 'implies(%s, forall(lambda k: implies(0 <= k and k < m.neq and EVENT(k), WOKEN(k))))' % SLEEP_ON,
+        'no_awake_tree_falls_asleep': MONO,
+        'nothing_happens_with_sleep_disabled': 'implies(not (%s), result == 0 and forall(lambda x: implies(0 <= x and x < m.ntree, %s[x] == old(%s[x]))))' % (SLEEP_ON, TA, TA),
+        'count_not_negative': 'result >= 0',
+    },
+    'loops': {
+        0: {'invariant': {
+            'range': '0 <= i and i <= neq and neq == m.neq and nwoke >= 0 and nwoke <= 2 * i * m.ntree and %s' % SLEEP_ON,
+            'mono': MONO,
+            'done': 'forall(lambda k: implies(0 <= k and k < i and EVENT(k), WOKEN(k)))'}},
+        1: {'invariant': {'range': '0 <= j and j <= num'}},
+        2: {'invariant': {'range': '0 <= j and j <= num and 0 <= i and i < neq and neq == m.neq and nwoke >= 0 and nwoke <= 2 * i * m.ntree and %s' % SLEEP_ON,
+                          'mono': MONO,
+                          'done': 'forall(lambda k: implies(0 <= k and k < i and EVENT(k), WOKEN(k)))'}},
+    },
+    'prune_ms': 300,
+}
+
+
+# mj_wakeCollision, geom-geom contacts (contract domain: no flex contacts, con.geom[0..1] >= 0; the flex side lookup mj_flexBody is not
+# under contract).  A contact between a sleeping tree and an awake tree - or a dof-less body marked awake (mocap) - wakes the sleeping tree.
+CON_DEFS = {
+    'CB': 'lambda c, s: m.geom_bodyid[d.contact[c].geom[s]]',
+    'CT': 'lambda c, s: m.body_treeid[CB(c, s)]',
+    'BOTH_TREES': 'lambda c: CT(c, 0) >= 0 and CT(c, 1) >= 0 and (d.tree_awake[CT(c, 0)] != 0) != (d.tree_awake[CT(c, 1)] != 0)',
+    'MOCAP_SIDE': 'lambda c, s: CT(c, s) < 0 and CT(c, 1 - s) >= 0 and d.tree_awake[CT(c, 1 - s)] == 0 and d.body_awake[CB(c, s)] == mjS_AWAKE',
+}
+WAKE_COLLISION = {
+    'params': {'m': {'n': 1, 'ptrfields': {'geom_bodyid': {'len': 'm.ngeom'}, 'body_treeid': {'len': 'm.nbody'}}},
+               'd': {'n': 1, 'ptrfields': {'tree_asleep': {'len': 'm.ntree'}, 'tree_awake': {'len': 'm.ntree'}, 'body_awake': {'len': 'm.nbody'}, 'contact': {'len': 'd.ncon'}}}},
+    'defs': CON_DEFS,
+    'requires': {
+        'sizes': '0 <= m.ntree and m.ntree < 2**30 and 0 <= d.ncon and d.ncon < 2**28 and 1 <= m.nbody and m.nbody < 2**30 and 0 <= m.ngeom and m.ngeom < 2**30',
+        'wake_counter_fits_an_int': '(d.ncon + 1) * m.ntree < 2**31',
+        'derived_flags_current': EXACT_FLAGS,
+        'geom_contacts_only': 'forall(lambda c: implies(0 <= c and c < d.ncon, 0 <= d.contact[c].geom[0] and d.contact[c].geom[0] < m.ngeom and 0 <= d.contact[c].geom[1] and d.contact[c].geom[1] < m.ngeom))',
+        'bodies_of_geoms': 'forall(lambda g: implies(0 <= g and g < m.ngeom, 0 <= m.geom_bodyid[g] and m.geom_bodyid[g] < m.nbody))',
+        'trees_of_bodies': 'forall(lambda b: implies(0 <= b and b < m.nbody, -1 <= m.body_treeid[b] and m.body_treeid[b] < m.ntree))',
+    },
+    'assigns': ['d.tree_asleep[*]'],
+    'ensures': {
+        'a_contact_with_an_awake_tree_wakes_the_sleeping_tree': 'implies(%s, forall(lambda c: implies(0 <= c and c < d.ncon and BOTH_TREES(c), %s[CT(c, 0)] < 0 and %s[CT(c, 1)] < 0)))' % (SLEEP_ON, TA, TA),
+        'a_contact_with_an_awake_dofless_body_wakes_the_sleeping_tree': 'implies(%s, forall(lambda c: implies(0 <= c and c < d.ncon, implies(MOCAP_SIDE(c, 0), %s[CT(c, 1)] < 0) and implies(MOCAP_SIDE(c, 1), %s[CT(c, 0)] < 0))))' % (SLEEP_ON, TA, TA),
+        'no_awake_tree_falls_asleep': MONO,
+        'nothing_happens_with_sleep_disabled': 'implies(not (%s), result == 0 and forall(lambda x: implies(0 <= x and x < m.ntree, %s[x] == old(%s[x]))))' % (SLEEP_ON, TA, TA),
+        'count_not_negative': 'result >= 0',
+    },
+    'loops': {0: {'invariant': {
+        'range': '0 <= i and i <= ncon and ncon == d.ncon and ntree == m.ntree and nwoke >= 0 and nwoke <= i * m.ntree and %s' % SLEEP_ON,
+        'mono': MONO,
+        'done_trees': 'forall(lambda c: implies(0 <= c and c < i and BOTH_TREES(c), %s[CT(c, 0)] < 0 and %s[CT(c, 1)] < 0))' % (TA, TA),
+        'done_mocap': 'forall(lambda c: implies(0 <= c and c < i, implies(MOCAP_SIDE(c, 0), %s[CT(c, 1)] < 0) and implies(MOCAP_SIDE(c, 1), %s[CT(c, 0)] < 0)))' % (TA, TA),
+    }}},
+    'prune_ms': 300,
+}
+
+# mj_wake: a sleeping tree whose qpos was changed (flagged in tree_awake by the kinematics pass) or which carries any applied force or
+# velocity is woken; with sleeping disabled every tree is set awake when some still sleep
+FORCE_ON = ('lambda t: exists(lambda q: 6 * m.tree_bodyadr[t] <= q and q < 6 * (m.tree_bodyadr[t] + m.tree_bodynum[t]) and not (d.xfrc_applied[q] == fp(0.0))) or '
+            'exists(lambda q: m.tree_dofadr[t] <= q and q < m.tree_dofadr[t] + m.tree_dofnum[t] and (not (d.qfrc_applied[q] == fp(0.0)) or not (d.qvel[q] == fp(0.0))))')
+WAKE_USER = {
+    'params': {'m': {'n': 1, 'ptrfields': {'tree_sleep_policy': {'len': 'm.ntree'}, 'tree_bodyadr': {'len': 'm.ntree'}, 'tree_bodynum': {'len': 'm.ntree'},
+                                           'tree_dofadr': {'len': 'm.ntree'}, 'tree_dofnum': {'len': 'm.ntree'}, 'dof_length': {'len': 'm.nv'}}},
+               'd': {'n': 1, 'ptrfields': {'xfrc_applied': {'len': '6 * m.nbody'}, 'qfrc_applied': {'len': 'm.nv'}, 'qvel': {'len': 'm.nv'},
+                                           'tree_asleep': {'len': 'm.ntree'}, 'tree_awake': {'len': 'm.ntree'}}}},
+    'defs': {'FORCE_ON': FORCE_ON},
+    'requires': {
+        'sizes': '0 <= m.ntree and m.ntree < 2**15 and 0 <= m.nbody and m.nbody < 2**20 and 0 <= m.nv and m.nv < 2**20 and 0 <= d.ntree_awake and d.ntree_awake <= m.ntree',
+        'tree_ranges': 'forall(lambda t: implies(0 <= t and t < m.ntree, 0 <= m.tree_bodyadr[t] and 0 <= m.tree_bodynum[t] and m.tree_bodyadr[t] + m.tree_bodynum[t] <= m.nbody and '
+                       '0 <= m.tree_dofadr[t] and 0 <= m.tree_dofnum[t] and m.tree_dofadr[t] + m.tree_dofnum[t] <= m.nv))',
+    },
+    'assigns': ['d.tree_asleep[*]'],
+    'ensures': {
+        'a_flagged_qpos_change_wakes_the_tree': 'implies(%s, forall(lambda t: implies(0 <= t and t < m.ntree and d.tree_awake[t] != 0, %s[t] < 0)))' % (SLEEP_ON, TA),
+        'an_applied_force_or_velocity_wakes_the_tree': 'implies(%s, forall(lambda t: implies(0 <= t and t < m.ntree and FORCE_ON(t), %s[t] < 0)))' % (SLEEP_ON, TA),
+        'no_awake_tree_falls_asleep': MONO,
+        'with_sleep_disabled_sleeping_trees_are_all_woken': 'implies(not (%s) and d.ntree_awake < m.ntree, forall(lambda t: implies(0 <= t and t < m.ntree, %s[t] < 0)))' % (SLEEP_ON, TA),
+        'count_not_negative': 'result >= 0',
+    },
+    'loops': {0: {'invariant': {
+        'range': '0 <= i and i <= ntree and ntree == m.ntree and nwoke >= 0 and nwoke <= i * m.ntree and %s' % SLEEP_ON,
+        'mono': MONO,
+        'done_flagged': 'forall(lambda t: implies(0 <= t and t < i and d.tree_awake[t] != 0, %s[t] < 0))' % TA,
+        'done_forced': 'forall(lambda t: implies(0 <= t and t < i and FORCE_ON(t), %s[t] < 0))' % TA,
+    }}},
+    'prune_ms': 300,
+}
+
+FILL_INT = {   # mju_fillInt(res, val, n) (engine_util_misc.c), verified as its own unit
+    'requires': {'n': 'n >= 0'},
+    'assigns': ['res[*]'],
+    'ensures': {'filled': 'forall(lambda j: implies(off(res) <= j and j < off(res) + n, elem(res, j) == val))',
+                'rest': 'forall(lambda j: implies(j < off(res) or j >= off(res) + n, elem(res, j) == old(elem(res, j))))'},
+    'loops': {0: {'invariant': {'range': '0 <= i and i <= n',
+                                'filled': 'forall(lambda j: implies(off(res) <= j and j < off(res) + i, elem(res, j) == val))',
+                                'rest': 'forall(lambda j: implies(j < off(res) or j >= off(res) + i, elem(res, j) == old(elem(res, j))))'}}},
+    'no_error': True,
+}
+
+
+def wake_contracts():
+    """contracts for the wake sweeps: the two primitives through their weak views"""
+    return {'__defs__': DEFS, 'mj_wakeIsland': WAKE_VIEW, 'mj_sleepCycle': CYCLE_VIEW, 'tendonLimit': TENDON_LIMIT, 'mj_wakeTendon': WAKE_TENDON, 'mj_wakeEquality': WAKE_EQUALITY, 'mj_wakeCollision': WAKE_COLLISION, 'mj_wake': WAKE_USER, 'mju_fillInt': FILL_INT, 'mj_flexBody': {'inline': True, 'pure_inline': True},
+            'treeCanSleep': CANSLEEP, 'isSmaller': {'inline': True}, '__effect_free__': ('mju_isTopicEnabled',)}
